@@ -228,6 +228,17 @@ class NpProxy:
         return getattr(np, name)
 
 
+def _quiet_sample(m, n):
+    """draw from a model without leaving a trace in numpy's global generator."""
+    with GlobalSeed(12345):
+        return m.sample(n)
+
+
+def _quiet_cond(g, conditions):
+    with GlobalSeed(12345):
+        return g.sample(2, conditions=conditions)
+
+
 def scratch_dir(ctx, tag):
     d = os.path.join(SCRATCH, f'tmp-{os.getpid()}-{ctx.seed}-{tag}')
     os.makedirs(d, exist_ok=True)
@@ -244,7 +255,7 @@ def uni_classes():
 
 
 DATA_KINDS = ('normal', 'lognormal', 'uniform', 'bounded', 'heavy', 'tiny', 'big', 'small', 'twoval')
-CONSTANTS = (0.0, -3.7, 2.5, 1e10, 1e-12, 1.0 / 3.0, 7.0, -1e-5, 123456.789)
+CONSTANTS = (0.0, -3.7, 2.5, 1e10, 1e-12, 1.0 / 3.0, 7.0, -1e-5, 123456.789, 0.1, 0.7)
 
 
 def gen_data(rs, kind, n):
@@ -324,6 +335,9 @@ def uni_specs(ctx, n_random, deep=False):
         add(name, {}, gen_data(rs, natural[name], size()), natural[name])
         add(name, {}, np.full(rng.randint(2, 30), rng.choice(CONSTANTS)), 'const')
     add('StudentTUnivariate', {}, np.full(8, 7.0), 'const')     # t.fit returns loc = 7.000000000000002
+    for name in C:                                               # constants that are not float32-exact
+        add(name, {}, np.full(rng.randint(3, 20), rng.choice([0.1, 0.7, 1.0 / 3.0])), 'const')
+    add('Univariate', {'candidates': ['GaussianUnivariate', 'GaussianKDE']}, np.full(9, 0.1), 'const')
     for name in ('GaussianUnivariate', 'UniformUnivariate', 'GaussianKDE'):
         add(name, {}, gen_data(rs, 'small', size()), 'small')      # spread 1e-6: not a constant
     # tiny relative spread (non-constant!): every kind for the KDE and a wrapper that must select the KDE,
@@ -385,10 +399,13 @@ def uni_specs(ctx, n_random, deep=False):
 
         def data():
             return gen_data(rs, kind, hsize())
-        hists = {'const>data': lambda: ([const()], data(), kind), 'data>const': lambda: ([data()], const(), 'const'),
+        hists = {'data>q>data': lambda: ([data()], data(), kind), 'const>q>data': lambda: ([const()], data(), kind),
+                 'data>q>const': lambda: ([data()], const(), 'const'),
+                 'const>data': lambda: ([const()], data(), kind), 'data>const': lambda: ([data()], const(), 'const'),
                  'const>const': lambda: ([const()], const(), 'const'), 'data>data': lambda: ([data()], data(), kind),
                  'const>data>const>data': lambda: ([const(), data(), const()], data(), kind)}
-        chosen = list(hists) if deep else ['const>data', rng.choice(['data>const', 'const>const', 'data>data'])]
+        chosen = list(hists) if deep else ['const>data', 'data>q>data', rng.choice(['data>const', 'const>const', 'data>data']),
+                                           rng.choice(['const>q>data', 'data>q>const'])]
         if name == 'GaussianKDE' and 'data>const' not in chosen:
             chosen.append('data>const')       # a constant refit keeps the earlier `_model` (recorded finding): every run
         for h in chosen:
@@ -417,14 +434,21 @@ def uni_specs(ctx, n_random, deep=False):
                 o['bounded'] = BoundedType[o['bounded']]
             return Univariate(**o)
         return C[name](**opts)
-    def prefitted(name, opts, pre):
+    def prefitted(name, opts, pre, query):
         m = factory(name, opts)
         for p in pre:
             if outcome(lambda: m.fit(p))[0] == 'err':      # an earlier fit refused its data: start from a fresh object
                 m = factory(name, opts)
+            elif query:                                     # USE the model between the fits (caches!)
+                xs = np.array([float(np.min(p)), float(np.mean(p)), float(np.max(p)) + 0.5])
+                for call in (lambda: m.cumulative_distribution(xs), lambda: m.percent_point(np.array([0.2, 0.5, 0.9])),
+                             lambda: m.probability_density(xs), lambda: m.log_probability_density(xs), lambda: _quiet_sample(m, 3),
+                             lambda: m.to_dict()):
+                    outcome(call)
         return m
     for key, name, opts, data, kind, pre in specs:
-        f = (lambda name=name, opts=opts, pre=pre: prefitted(name, opts, pre))
+        query = len(key) > 4 and '>q' in key[4]
+        f = (lambda name=name, opts=opts, pre=pre, query=query: prefitted(name, opts, pre, query))
         f.pre = pre
         yield key, f, name, opts, np.asarray(data, dtype=float), kind
 
@@ -476,6 +500,25 @@ def uni_behaviour(m, x, u, seed, nsamp=12):
     out['cdf'] = outcome(lambda: m.cumulative_distribution(x))
     out['percent_point'] = outcome(lambda: m.percent_point(u))
     out['log_pdf'] = outcome(lambda: m.log_probability_density(x))
+    # the same questions asked with other query-point types: float32 / int arrays, Python lists, scalars
+    pts = list(x[:6])
+    cval = getattr(concrete(m), '_constant_value', None) if getattr(m, 'fitted', False) else None
+    if isinstance(cval, (int, float)) and np.isfinite(cval):
+        # at the constant and next to it, as seen in float32 and in float64
+        c32 = np.float32(cval)
+        pts += [float(cval), float(c32), float(np.nextafter(c32, np.float32(np.inf))), float(np.nextafter(c32, np.float32(-np.inf))),
+                float(np.nextafter(float(cval), np.inf)), float(np.nextafter(float(cval), -np.inf))]
+    x64 = np.array(pts, dtype=np.float64)
+    with np.errstate(all='ignore'):
+        x32 = x64.astype(np.float32)
+        xi = np.round(np.clip(x64, -1e15, 1e15)).astype(np.int64)
+    queries = {'float64-near': x64, 'float32': x32, 'int': xi, 'list': [float(v) for v in x64[:4]], 'scalar': float(x64[-1]),
+               'scalar32': np.float32(x64[-1])}
+    for tag, q in queries.items():
+        out[f'pdf:{tag}'] = outcome(lambda q=q: m.probability_density(q))
+        out[f'cdf:{tag}'] = outcome(lambda q=q: m.cumulative_distribution(q))
+    out['percent_point:float32'] = outcome(lambda: m.percent_point(u[:5].astype(np.float32)))
+    out['percent_point:list'] = outcome(lambda: m.percent_point([float(v) for v in u[:3]]))
 
     def samp_seeded():
         m.set_random_state(seed)
@@ -645,7 +688,13 @@ def tie_univariate(ctx, lean, tab, n_random):
                 if type(o) is not want_cls:
                     bad['behav'] = bad['behav'] or {'case': key, 'variant': vname, 'class': type(o).__name__}
                     continue
-                diff = compare_behaviour(b0, uni_behaviour(o, x, u, 11))
+                skip = ()
+                if is_constant_obj(m) and (vname == 'json' or vname.startswith('trips')):
+                    # json.loads yields a Python float where the original holds a numpy scalar; numpy's float32-vs-scalar
+                    # comparison rule then differs (recorded finding, outside the Lean value grammar): left to the search
+                    skip = tuple(k for k in b0 if 'float32' in k or 'scalar32' in k)
+                    ctx.count('uni:json-constant-float32-queries(left to search)')
+                diff = compare_behaviour(b0, uni_behaviour(o, x, u, 11), skip)
                 if diff:
                     bad['behav'] = bad['behav'] or {'case': key, 'variant': vname, 'differs': diff}
             ctx.sample({'class': name, 'options': {k: str(v)[:30] for k, v in opts.items()}, 'data': kind, 'n': len(data),
@@ -916,8 +965,15 @@ def gauss_specs(ctx, n_cases, deep=False):
             GaussianMultivariate(distribution=C['GaussianUnivariate']) if dist == 'gauss' else \
             GaussianMultivariate(distribution={'a': C['GaussianKDE'], 'b': Univariate(candidates=[C['GaussianUnivariate'], C['GammaUnivariate']]),
                                                'c': C['StudentTUnivariate']})
-        outcome(lambda: g.fit(first))
-        out.append((('str', dist, ('refit:' + h,), n), g, second, second))
+        q = deep or rng.random() < 0.7
+        if outcome(lambda: g.fit(first))[0] == 'ok' and q:          # USE the model between the fits
+            rows = first.iloc[:3]
+            for call in (lambda: g.probability_density(rows), lambda: g.cumulative_distribution(rows), lambda: _quiet_sample(g, 2),
+                         lambda: g.to_dict()):
+                outcome(call)
+            c0 = list(first.columns)[0]
+            outcome(lambda: _quiet_cond(g, {c0: float(first[c0].iloc[0])}))
+        out.append((('str', dist, ('refit:' + h + ('+q' if q else ''),), n), g, second, second))
     return out
 
 
@@ -1137,8 +1193,12 @@ def vine_specs(ctx, n_each, deep=False):
         first = pd.DataFrame(rs.normal(size=(n, d1)) @ rs.normal(size=(d1, d1)), columns=[f'o{j}' for j in range(d1)])
         second = pd.DataFrame(rs.normal(size=(n + 5, d2)) @ rs.normal(size=(d2, d2)), columns=[f'v{j}' for j in range(d2)])
         v = VineCopula(vt)
-        outcome(lambda: v.fit(first, truncated=rng.choice([1, 3])))
-        out.append(((vt, d2, n + 5, 3, 'refit'), v, second, 3))
+        q = deep or rng.random() < 0.7
+        if outcome(lambda: v.fit(first, truncated=rng.choice([1, 3])))[0] == 'ok' and q:     # USE the vine between the fits
+            outcome(lambda: _quiet_sample(v, 1))
+            outcome(lambda: v.get_likelihood(np.full((1, d1), 0.4)))
+            outcome(lambda: v.to_dict())
+        out.append(((vt, d2, n + 5, 3, 'refit+q' if q else 'refit'), v, second, 3))
     return out
 
 
@@ -1353,7 +1413,7 @@ def _report(ctx, found, entry, inp, obs, req, cls):
     ctx.fail_input(entry, inp, obs, req, cls)
 
 
-def _uni_class_key(m, variant, what, hist=''):
+def _uni_class_key(m, variant, what, hist='', rebuilt=None):
     from copulas.univariate import Univariate
     c = concrete(m)
     name = type(c).__name__
@@ -1364,7 +1424,16 @@ def _uni_class_key(m, variant, what, hist=''):
             for o in ('bw_method', 'weights'):
                 if getattr(c, o, None) is not None:
                     return entry, f'GaussianKDE.from_dict:{o}-not-serialised'
-        if const and name == 'StudentTUnivariate':
+        if const and rebuilt is not None and ('float32' in what or 'scalar32' in what) \
+                and wire(getattr(concrete(rebuilt), '_constant_value', None)) == wire(c._constant_value) \
+                and type(getattr(concrete(rebuilt), '_constant_value', None)) is float and type(c._constant_value) is not float:
+            # same constant, but a plain Python float where the original holds a numpy scalar: numpy compares a float32
+            # array with a Python float in float32, with an np.float64 scalar in float64
+            if variant == 'json' or variant.startswith('trips'):
+                return entry, 'Univariate.from_dict:json-restored-constant-is-python-float:float32-query-differs'
+            return entry, f'{entry}:constant-restored-as-python-float:float32-query-differs'
+        if const and name == 'StudentTUnivariate' and \
+                wire(Univariate.from_dict(m.to_dict())._constant_value) != wire(c._constant_value):
             return entry, 'StudentTUnivariate.from_dict:constant-value-taken-from-fitted-loc'
         if not const:
             m2 = Univariate.from_dict(m.to_dict())
@@ -1374,14 +1443,19 @@ def _uni_class_key(m, variant, what, hist=''):
                     # e.g. a standard deviation that underflowed to 0.0 on non-constant data
                     return entry, f'{name}.from_dict:non-constant-fit-with-zero-scale-detected-as-constant'
                 return entry, f'{name}.from_dict:non-constant-fit-detected-as-constant'
+    if ':' in what:                 # e.g. 'pdf:float32' -> pdf differs on float32 query points
+        base, q = what.split(':', 1)
+        what_txt = f'{base}-differs:{q}-query'
+    else:
+        what_txt = f'{what}-differs'
     if hist:
         st = stale_state(m)
         if st == 'constant-with-stale-_model' and what == 'log_pdf':
             # the constant refit left the kernel estimate of the EARLIER data in `_model`, and log_probability_density
             # (not among the replaced methods) still evaluates it; the rebuilt constant model has no `_model`
             return entry, f'{entry}:log_pdf-differs:constant-refit-keeps-stale-_model'
-        return entry, f'{entry}:{what}-differs:after-refit'
-    return entry, f'{entry}:{what}-differs'
+        return entry, f'{entry}:{what_txt}:' + ('after-query-and-refit' if '>q' in hist else 'after-refit')
+    return entry, f'{entry}:{what_txt}'
 
 
 def search_univariate(ctx, deep, found):
@@ -1437,7 +1511,7 @@ def search_univariate(ctx, deep, found):
                     continue
                 diff = compare_behaviour(b0, uni_behaviour(o, x, u, 23, nsamp=40 if deep else 12))
                 if diff:
-                    e, cls = _uni_class_key(m, vname, diff, hist)
+                    e, cls = _uni_class_key(m, vname, diff, hist, rebuilt=o)
                     b1 = uni_behaviour(o, x, u, 23)
                     obs = {'differs': diff, 'original': _brief(b0[diff]), 'rebuilt': _brief(b1.get(diff))}
                     _report(ctx, found, e, inp, obs, f'{diff} identical to the original model\'s', cls)
@@ -1517,7 +1591,8 @@ def search_gaussian(ctx, deep, found, tab_like):
                     # attribute the divergence to a marginal when one of them is a known-divergent shape
                     what = 'conditional-sample' if diff.startswith('conditional-sample') else diff
                     cls = (f'{e}:correlation-labels-differ' if diff == 'correlation-labels' else f'{e}:{what}-differs') + \
-                        (':after-refit' if str(key[2][0]).startswith('refit:') else '')
+                        ((':after-query-and-refit' if str(key[2][0]).endswith('+q') else ':after-refit')
+                         if str(key[2][0]).startswith('refit:') else '')
                     if vname != 'save_load':
                         for u in g.univariates:
                             eq, why = model_predicts_equal_quick(tab_like, u)
@@ -1565,7 +1640,7 @@ def search_vine(ctx, deep, found):
                 diff = compare_behaviour(b0, vine_behaviour(o, u, 6), skip)
                 if diff:
                     _report(ctx, found, e, inp, {'differs': diff}, f'{diff} identical',
-                            f'{e}:{diff}-differs' + (':after-refit' if key[4] == 'refit' else ''))
+                            f'{e}:{diff}-differs' + ({'refit': ':after-refit', 'refit+q': ':after-query-and-refit'}.get(key[4], '')))
     finally:
         shutil.rmtree(tmp, ignore_errors=True)
     return checked
